@@ -16,6 +16,8 @@ m = Machine(mod, nthreads=1, unwind=U, verbose=True)
 from xsym import z3b
 m.pruner = z3b.Pruner() if "--prune" in sys.argv else None
 for a in sys.argv[2:]:
+    if a.startswith('--symcap='): m.sym_loop_cap = int(a.split('=')[1])
+    if a.startswith('--maxrec='): m.max_recursion = int(a.split('=')[1])
     if a.startswith('--fix='):
         for kv in a[6:].split(','): k, v = kv.split('='); m.fixed[int(k)] = int(v)
 t0 = time.time()
